@@ -9,10 +9,10 @@ open IdDsl IdAux
 
 /-! ### `DependsOnly` algebra -/
 
-theorem dependsOnly_mul {f g : Val → Rat} {S : List Name} (hf : DependsOnly f S) (hg : DependsOnly g S) :
+theorem IdAux.dependsOnly_mul {f g : Val → Rat} {S : List Name} (hf : DependsOnly f S) (hg : DependsOnly g S) :
     DependsOnly (fun σ => f σ * g σ) S := fun σ τ h => by simp only [hf σ τ h, hg σ τ h]
 
-theorem dependsOnly_map_prod {α : Type} (l : List α) (F : α → Val → Rat) (S : List Name)
+theorem IdAux.dependsOnly_map_prod {α : Type} (l : List α) (F : α → Val → Rat) (S : List Name)
     (h : ∀ a ∈ l, DependsOnly (F a) S) : DependsOnly (fun σ => (l.map fun a => F a σ).prod) S := by
   intro σ τ hστ
   induction l with
@@ -22,7 +22,7 @@ theorem dependsOnly_map_prod {α : Type} (l : List α) (F : α → Val → Rat) 
     simp only [List.map_cons, List.prod_cons] at h2 ⊢
     rw [h a List.mem_cons_self σ τ hστ, h2]
 
-theorem sumVar_dependsOnly (card : Name → Nat) (x : Name) {f : Val → Rat} {S : List Name}
+theorem IdAux.sumVar_dependsOnly (card : Name → Nat) (x : Name) {f : Val → Rat} {S : List Name}
     (h : DependsOnly f (x :: S)) : DependsOnly (sumVar card x f) S := by
   intro σ τ hστ
   simp only [sumVar_eq_sum]
@@ -34,7 +34,7 @@ theorem sumVar_dependsOnly (card : Name → Nat) (x : Name) {f : Val → Rat} {S
     · subst hvx; simp
     · simp [Val.set, hvx, hστ v hv]
 
-theorem sumVars_dependsOnly (card : Name → Nat) (xs : List Name) {f : Val → Rat} {S : List Name}
+theorem IdAux.sumVars_dependsOnly (card : Name → Nat) (xs : List Name) {f : Val → Rat} {S : List Name}
     (h : DependsOnly f (xs ++ S)) : DependsOnly (sumVars card xs f) S := by
   induction xs generalizing S with
   | nil => simpa [sumVars] using h
